@@ -18,10 +18,12 @@ def write_ruleset(d, spec):
     for sub in ['Grammar', 'Alpha', 'Capitalization', 'Digits', 'Other', 'Keyboard', 'Years', 'Context', 'Omen',
                 'Emails', 'Websites', 'Prince', 'Masks']:
         os.makedirs(os.path.join(d, sub), exist_ok=True)
+    # spec['no_final_newline']: the files end without a line feed after their last line (hand-edited files, files written with '\n'.join(rows))
+    nfn = bool(spec.get('no_final_newline'))
     def w(path, rows, e=enc):
         with open(path, 'w', encoding=e, newline='') as f:
-            for v, p in rows:
-                f.write(f"{v}\t{fmt(p)}\n")
+            text = ''.join(f"{v}\t{fmt(p)}\n" for v, p in rows)
+            f.write(text[:-1] if nfn and text else text)
     w(os.path.join(d, 'Grammar', 'grammar.txt'), spec['base'], 'ascii')
     w(os.path.join(d, 'Prince', 'grammar.txt'), spec.get('prince') or [], 'ascii')
     files = {k: [] for k in FAM}
@@ -281,6 +283,8 @@ def gen_spec(rng, *, pool=None, n_base=None, max_len=4, labels=None, with_m=None
         omen['keyspace'] = [[l, 1] for l in range(0, 19)]
     spec = {'encoding': 'utf-8', 'uuid': str(uuid.UUID(int=rng.getrandbits(128))), 'base': base, 'prince': [],
             'terms': terms, 'omen': omen, 'pool': pool}
+    if rng.random() < 0.15:
+        spec['no_final_newline'] = True
     return spec
 
 
